@@ -668,6 +668,13 @@ class CallMixin:
         if vals is None:
             vals = self.call_values(f, e, st)
         self.bind_values(f, vals, st)  # parameter objects are globally unique, so the caller's dict can hold them
+        c = f.contract
+        if c is not None and not self.spec and not f.spec and c.of("requires") and "inline" in c.flags:
+            # an inlined callee's stated precondition is still an obligation of the call site
+            pre = st.fork()
+            for cl in c.of("requires"):
+                g = self.eval_clause(cl, st, results=None, old=pre)
+                self.oblige(st, "precondition", "call-%s@%s:%s" % (f.key, self.site(e), cl["label"]), g, e.get("ln"), "%s requires %s" % (f.key, cl["text"]))
         return self.run_body(f, f.node, st, e)
 
     def run_body(self, f, node, st, e):
